@@ -571,9 +571,35 @@ def snan_hazard(c):
     return False
 
 
+_HUGE_EXP = re.compile(r"[eE][+-]?[0-9٠-٩_]{7,}|[0-9]{40,}[eE]?[0-9]+\Z")
+
+
+def huge_exp_hazard(c):
+    """Strings with a very large exponent are only run against types whose model needs
+    no 10**exp (float/int/bool/str and a bare Decimal parse): comparing or printing
+    Decimal('1E+99999999') would materialise that many digits on both sides."""
+    if not _HUGE_EXP.search(c["s"]):
+        return False
+    if c.get("strict") is not None and "Decimal" in c["types"]:
+        return True
+    return any(isinstance(t, dict) for t in c["types"])
+
+
+DEC_LIMITS = [
+    "1E999999999999999999", "1E1000000000000000000", "1E-999999999999999999", "1E-1999999999999999997", "1E-1999999999999999998",
+    "10E999999999999999999", "1.0E1000000000000000000", "0E1000000000000000000", "0E99999999999999999999999", "1E9223372036854775807",
+    "0.1E1000000000000000000", "123E999999999999999997", "123E999999999999999998", "0.001E-1999999999999999994", "0.001E-1999999999999999995",
+    "-0E-1999999999999999997", "-0E-1999999999999999998", "9" * 30 + "E999999999999999970", "9" * 30 + "E999999999999999971",
+]
+
+
 def gen_de(rng, tier):
+    for s in DEC_LIMITS:
+        yield de_case(s, ["Decimal"])
+        yield de_case(s, ["float"])
+        yield de_case(s, ["Decimal", "str"])
     for c in gen_de_all(rng, tier):
-        if not snan_hazard(c):
+        if not snan_hazard(c) and not huge_exp_hazard(c):
             yield c
 
 
@@ -772,6 +798,12 @@ def gen_ser(rng, tier):
 
 
 def gen_test(rng, tier):
+    for c in gen_test_all(rng, tier):
+        if not huge_exp_hazard(c):
+            yield c
+
+
+def gen_test_all(rng, tier):
     quick = tier == "quick"
     strs_ = NUM_HAND + ["1.0", "1.00", "01", "+1", "1e5", "1E5", "100000.0", "1E+22", "1e22", "1E22", "0.1", ".1", "true", "1", "0", "INF", "inf", "NaN", "nan", "-0", "-0.0", "1.50", "abc", ""]
     for s in strs_:
